@@ -934,9 +934,8 @@ def find_replace(
             grouped = source[:range_start] + f"({template_replacement})" + source[range_end:]
             if (
                 not _is_atom(template_replacement)
-                and core.is_valid_python(plain)
                 and core.is_valid_python(grouped)
-                and not _sources_equivalent(plain, grouped)
+                and not (core.is_valid_python(plain) and _sources_equivalent(plain, grouped))
             ):
                 template_replacement = f"({template_replacement})"
 
